@@ -64,7 +64,7 @@ Definition Rc (c : N) (mf : bytes) (rc : list (bytes * bool)) (n g : nat) (a : a
 
 (** events without notes or hand-offs do not move either checker *)
 Definition quiet_ev (e : event) : bool :=
-  match e with Reply _ | Closed | EStuck => true | _ => false end.
+  match e with Reply _ | Closed | EStuck | Note NBad | Note NBadReset | Note NBadClose => true | _ => false end.
 Definition quiet (evs : list event) : Prop := forallb quiet_ev evs = true.
 
 Section Proofs.
@@ -94,7 +94,8 @@ Lemma quiet_trace evs a : quiet evs -> trace_run o evs a = Some a.
 Proof.
   unfold quiet. induction evs as [|e r IH]; simpl; [reflexivity|].
   intros H. apply andb_true_iff in H as [He Hr].
-  destruct e; try discriminate; simpl; apply IH; exact Hr.
+  destruct e as [c|e m| | |n]; try discriminate; try (simpl; apply IH; exact Hr);
+    destruct n; try discriminate; simpl; apply IH; exact Hr.
 Qed.
 
 (** a quiet list may contain replies, which the queue checker looks at in some states *)
@@ -105,7 +106,8 @@ Lemma quiet_queue_idle evs : quiet evs -> queue_run o evs QIdle = Some QIdle.
 Proof.
   unfold quiet. induction evs as [|e r IH]; simpl; [reflexivity|].
   intros H. apply andb_true_iff in H as [He Hr].
-  destruct e; try discriminate; simpl; apply IH; exact Hr.
+  destruct e as [c|e m| | |n]; try discriminate; try (simpl; apply IH; exact Hr);
+    destruct n; try discriminate; simpl; apply IH; exact Hr.
 Qed.
 
 Lemma quiet_app a b : quiet a -> quiet b -> quiet (a ++ b).
@@ -146,10 +148,10 @@ Lemma on_error_spec s h ev so : on_error s h = (ev, so) ->
 Proof.
   unfold on_error. destruct (Nat.ltb MAXBADCMDS (badcmds s)).
   - intros H; inversion H; subst. split; [reflexivity|]. split.
-    + intros c [Hc|[Hc|[]]]; inversion Hc; subst; lia.
+    + intros c Hin; simpl in Hin; repeat (destruct Hin as [Hin|Hin]; [inversion Hin; subst; lia|]); contradiction.
     + intros s' Hs. discriminate.
   - destruct h; intros H; inversion H; subst; (split; [reflexivity|]); (split;
-      [ intros c Hin; simpl in Hin; repeat (destruct Hin as [Hin|Hin]; [inversion Hin; subst; lia|]); contradiction
+      [ intros c Hin; simpl in Hin; repeat (destruct Hin as [Hin|Hin]; [try discriminate; inversion Hin; subst; lia|]); contradiction
       | intros s' Hs a Ha; inversion Hs; subst; try apply R_tarpit; exact Ha ]).
 Qed.
 
@@ -684,11 +686,11 @@ Qed.
 
 (** ---------- one round, then all rounds ---------- *)
 Lemma on_error_first s h ev so : on_error s h = (ev, so) -> h = HE2BIG \/ h = HEMSGSIZE ->
-  exists c rest, ev = Reply c :: rest /\ (400 <= c)%N /\ quiet rest.
+  queue_run o ev QFailed = Some QIdle.
 Proof.
   unfold on_error. intros H Hh. destruct (Nat.ltb MAXBADCMDS (badcmds s)).
-  - inversion H; subst. exists 550%N, [Closed]. split; [reflexivity|]. split; [lia|reflexivity].
-  - destruct Hh as [-> | ->]; inversion H; subst; eexists _, []; (split; [reflexivity|]); (split; [lia|reflexivity]).
+  - inversion H; subst. reflexivity.
+  - destruct Hh as [-> | ->]; inversion H; subst; reflexivity.
 Qed.
 
 Lemma R_set_rd s r a : R s a -> R (set_rd s r) a.
@@ -714,15 +716,16 @@ Proof.
       assert (Hqf : queue_run o (e ++ ev) QIdle = Some QIdle).
       { rewrite queue_run_app. destruct Hq as [Hq|[Hq Hh]]; rewrite Hq.
         - now apply quiet_queue_idle.
-        - destruct (on_error_first _ _ _ _ Hoe Hh) as (c & rest & -> & Hc & Hrest).
-          cbn [queue_run queue_step]. apply N.leb_le in Hc. rewrite Hc. now apply quiet_queue_idle. }
+        - exact (on_error_first _ _ _ _ Hoe Hh). }
       split; [rewrite Hqf; discriminate|].
       intros s' Hs. split; [|exact Hqf]. apply (Hkeep s' Hs). split; [exact HRc|exact HI]. }
     destruct h; try (destruct (on_error s1 _) as [ev so'] eqn:Eoe; inversion H; subst;
                      destruct Hpost as (Hq & HRc); apply (Hgen _ _ eq_refl); [left; exact Hq|exact HRc]).
     + (* H0 *)
-      inversion H; subst. destruct Hpost as (Hq & HRc). exists a'. split; [exact Htr|].
-      split; [rewrite Hq; discriminate|]. intros s' Hs. inversion Hs; subst. split; [split; [exact HRc|exact HI]|exact Hq].
+      inversion H; subst. destruct Hpost as (Hq & HRc). exists a'.
+      assert (Hq' : queue_run o (e ++ [Note NBadReset]) QIdle = Some QIdle) by (rewrite queue_run_app, Hq; reflexivity).
+      split; [rewrite trace_run_app, Htr; reflexivity|].
+      split; [rewrite Hq'; discriminate|]. intros s' Hs. inversion Hs; subst. split; [split; [exact HRc|exact HI]|exact Hq'].
     + destruct (on_error s1 HE2BIG) as [ev so'] eqn:Eoe. inversion H; subst.
       destruct Hpost as ([Hq|Hq] & HRc); apply (Hgen _ _ eq_refl); auto.
     + destruct (on_error s1 HEMSGSIZE) as [ev so'] eqn:Eoe. inversion H; subst.
@@ -801,6 +804,36 @@ Proof.
   rewrite queue_run_app in Hq. destruct (queue_run o pre QIdle) as [q|] eqn:Ep; [|congruence].
   cbn [queue_run queue_step] in Hq. destruct q; try congruence.
   destruct (o_qq o k) eqn:Ek; try congruence. exists k. auto.
+Qed.
+
+(** never more than MAXRCPT recipients are stored: a recipient is accepted only below the limit *)
+Theorem rcpt_below_limit chunks pre addr cls post :
+  run_session o chunks = pre ++ Note (NRcpt addr cls) :: post ->
+  exists a, trace_run o pre a_init = Some a /\ a_stored a < MAXRCPT.
+Proof.
+  intros E. destruct (session_trace_ok chunks) as [Ht _]. unfold trace_ok in Ht. rewrite E in Ht.
+  destruct (trace_run_prefix pre _ a_init Ht) as (a & Ha).
+  rewrite trace_run_app, Ha in Ht. cbn [trace_run trace_step] in Ht.
+  exists a. split; [exact Ha|].
+  destruct (a_txn a) as [[f rs]|]; [|congruence].
+  destruct (match f, a_stored a with [], S _ => true | _, _ => false end); [congruence|].
+  destruct (Nat.leb MAXRCPT (a_stored a)) eqn:El; [congruence|]. now apply Nat.leb_gt.
+Qed.
+
+(** MAIL FROM with a SIZE parameter above control/databytes is refused before any data is sent *)
+Theorem mail_size_checked s arg len evs s' : h_from o s arg len = (evs, H0, s') ->
+  o_databytes o = 0%N \/ (thisbytes s' <= o_databytes o)%N.
+Proof.
+  unfold h_from. intros H.
+  destruct (o_addr o false arg) as [| | |addr more cls]; try discriminate.
+  match type of H with context [if ?b then None else more] => destruct (if b then None else more) end; try discriminate.
+  destruct (match more with Some m => o_ext o m | None => Ext_ok 0 0 end) as [tb bonus| |]; try discriminate.
+  destruct (Nat.ltb (CMD_LINE_MAX + bonus) len); try discriminate.
+  destruct (negb (N.eqb (o_databytes o) 0) && N.ltb (o_databytes o) tb) eqn:E; try discriminate.
+  inversion H; subst. cbn.
+  apply andb_false_iff in E as [E|E].
+  - left. apply negb_false_iff in E. now apply N.eqb_eq.
+  - right. now apply N.ltb_ge.
 Qed.
 
 End Proofs.
